@@ -123,7 +123,7 @@ pub fn property() -> Property {
         exh_count: no_exh_count,
         exh_case: no_exh_case,
         bytes_case: None,
-        quick_cases: 150_000,
+        quick_cases: 400_000,
         thorough_cases: 3_000_000,
         max_tape: 2048,
     }
